@@ -670,12 +670,28 @@ Proof.
   - apply b64_lxor; [apply b64_mul32|]. apply b64_shiftr. repeat apply b64_lxor; apply b64_mul32.
 Qed.
 
-Lemma b64_polyvalDot a b : b64 (fst (polyvalDot a b)) /\ b64 (snd (polyvalDot a b)).
+Lemma b64_reduce r0 r1 : b64 (fst r0) -> b64 (snd r0) -> b64 (fst r1) -> b64 (snd r1) ->
+  b64 (fst (pv_reduce r0 r1)) /\ b64 (snd (pv_reduce r0 r1)).
 Proof.
-  unfold polyvalDot, pv_reduce, pv_karatsuba. cbv zeta. cbn [fst snd].
+  destruct r0, r1. unfold pv_reduce. cbv zeta. cbn [fst snd]. intros.
+  split; repeat (apply b64_lxor || apply b64_shiftr || apply b64_shlw || assumption).
+Qed.
+
+Lemma b64_kara a b :
+  b64 (fst (fst (pv_karatsuba a b))) /\ b64 (snd (fst (pv_karatsuba a b))) /\
+  b64 (fst (snd (pv_karatsuba a b))) /\ b64 (snd (snd (pv_karatsuba a b))).
+Proof.
+  unfold pv_karatsuba. cbv zeta.
   pose proof (b64_mul64 (fst a) (fst b)) as [A1 A2]. pose proof (b64_mul64 (snd a) (snd b)) as [B1 B2].
   pose proof (b64_mul64 (N.lxor (fst a) (snd a)) (N.lxor (fst b) (snd b))) as [C1 C2].
-  split; repeat (apply b64_lxor || apply b64_shiftr || apply b64_shlw || assumption).
+  destruct (mul64 (fst a) (fst b)), (mul64 (snd a) (snd b)), (mul64 (N.lxor (fst a) (snd a)) (N.lxor (fst b) (snd b))).
+  cbn [fst snd] in *. repeat split; repeat (apply b64_lxor || assumption).
+Qed.
+
+Lemma b64_polyvalDot a b : b64 (fst (polyvalDot a b)) /\ b64 (snd (polyvalDot a b)).
+Proof.
+  unfold polyvalDot. cbv zeta. pose proof (b64_kara a b) as [H1 [H2 [H3 H4]]].
+  apply b64_reduce; assumption.
 Qed.
 
 (* ---------- Part 7: bytes ---------- *)
